@@ -29,6 +29,8 @@ let hex_of_bytes (b : n list) : string =
 let string_of_bytes (b : n list) : string =
   let buf = Buffer.create 16 in List.iter (fun x -> Buffer.add_char buf (Char.chr (int_of_n x))) b; Buffer.contents buf
 
+let bytes_of_string (s : string) : n list = List.init (String.length s) (fun i -> n_of_int (Char.code s.[i]))
+let fields_of (l : string) : string list = List.filter (fun s -> s <> "") (String.split_on_char ' ' l)
 let fields (l : string) : string list = List.filter (fun s -> s <> "") (String.split_on_char ' ' l)
 
 let families : (string, (string -> string)) Hashtbl.t = Hashtbl.create 16
